@@ -519,12 +519,15 @@ func (ev *sqlEval) sel(q *sqlx.Select) *Table {
 type pipeEval struct {
 	db DB
 	in *sem.Interner
+	// named holds the results that `as NAME` operators have named so far; later
+	// right-hand pipelines may read them like tables.
+	named map[string]*Table
 }
 
 // RunPipeline interprets the derivation left to right.
 func RunPipeline(p *gen.Pipeline, db DB, in *sem.Interner) (t *Table, err error) {
 	defer catch(&err)
-	ev := &pipeEval{db: db, in: in}
+	ev := &pipeEval{db: db, in: in, named: map[string]*Table{}}
 	return ev.pipeline(p), nil
 }
 
@@ -627,7 +630,10 @@ func (ev *pipeEval) take(t *Table, n gen.Expr) *Table {
 }
 
 func (ev *pipeEval) pipeline(p *gen.Pipeline) *Table {
-	base, ok := ev.db[p.Source.Name]
+	base, ok := ev.named[p.Source.Name]
+	if !ok {
+		base, ok = ev.db[p.Source.Name]
+	}
 	if !ok {
 		fail("unknown table %q", p.Source.Name)
 	}
@@ -689,6 +695,7 @@ func (ev *pipeEval) pipeline(p *gen.Pipeline) *Table {
 			t = &Table{Cols: []string{"count()"}, Rows: [][]sem.Val{{sem.N(float64(len(t.Rows)))}}}
 		case *gen.As:
 			// names the result; rows and columns unchanged
+			ev.named[op.Name.Name] = &Table{Cols: t.Cols, Rows: t.Rows}
 		case *gen.Render:
 			out := &Table{Cols: append([]string{}, t.Cols...), Keys: t.Keys}
 			out.Cols = append(out.Cols, "render_type")
@@ -871,8 +878,7 @@ func (ev *pipeEval) join(left *Table, op *gen.Join) *Table {
 					fail("join condition %s evaluates to %s", gen.ExprText(cond), v)
 				}
 				if !sem.IsTrue(v) {
-					ok = false
-					break
+					ok = false // keep evaluating: an ill-typed later condition makes the program undefined, as in SQL's AND
 				}
 			}
 			if ok {
